@@ -587,6 +587,11 @@ func c06exec(c *h.Ctx, cs *h.Case) {
 			net.ovl[0].VerifC06Reset()
 			net.ovl[1].VerifC06Reset()
 		}
+		if nnet != nil {
+			for s := range nnet.ovl {
+				nnet.ovl[s].VerifC06Reset()
+			}
+		}
 	}()
 	atoi := func(s string) (int, bool) {
 		v, err := strconv.ParseUint(s, 10, 31)
@@ -1166,6 +1171,13 @@ func c06exec(c *h.Ctx, cs *h.Case) {
 				}
 				checkStore(before, false, op)
 				obs = showStore()
+			case "h.race":
+				history()
+				if o, ok := cc.raceOp(cs, ovl, env.peerSI, tk, op); !ok {
+					obs = o
+				} else {
+					obs = showStore()
+				}
 			case "h.msg":
 				if len(tk) < 3 {
 					return
@@ -1732,6 +1744,20 @@ func c06gen(c *h.Ctx, yield func(*h.Case)) {
 			}
 		}
 	}
+	// --- two answers for one request handled at the same time (c06race.go): the tree stored first stays -------------
+	for rep := 0; rep < c.Pick(2, 10); rep++ {
+		tag := r.Intn(2) // Ed25519, with and without service keys
+		n := 6 + r.Intn(6)
+		ro := randRoster(1, 1, tag, n)
+		ops := []string{ro.op()}
+		for ti := 0; ti < 2; ti++ {
+			t := &c06tspec{label: ti + 1, tid: ti + 1, ro: ro}
+			t.pos, t.ar = randShape(25+r.Intn(15), n)
+			ops = append(ops, t.op())
+		}
+		ops = append(ops, fmt.Sprintf("c06 h.race 1 2 %d", c.Pick(120, 400)), "c06 h.request 1", fmt.Sprintf("c06 h.race 2 1 %d", c.Pick(60, 200)), "c06 h.msg reqtree 1 1")
+		emit("history race", ops)
+	}
 	// --- rosters whose entries carry no ID field (identities made as struct literals) or ID fields that disagree with
 	// the keys (a roster as a peer may send it; its id hashes the keys only): the tree code goes by the keys --------
 	for rep := 0; rep < c.Pick(12, 120); rep++ {
@@ -2074,6 +2100,6 @@ func c06gen(c *h.Ctx, yield func(*h.Case)) {
 		"c06 marshal-rt 9 1", "c06 maketree T1,R1,1 1", "c06 strip 1 9", "c06 equal 1 9", "c06 frommarshal junk 1", "c06 frommarshal empty 9", "c06 binaryun junk x",
 		"c06 binaryun splice 9 1", "c06 binaryun", "c06 roster 2 2 0 3/-,5/6", "c06 tree 2 2 2 0/3:0", "c06 h.msg roster 2", "c06 h.msg resptree T1,R2,1;5/5:0 2", "c06 maketree X1,R1,1;3/3:0 1", "c06 h.msg tm T1,R1,1;3/3:1", "c06 h.msg frob 1", "c06 h.request x", "c06 h.reqfail", "c06 h.reqsend y", "c06 frob",
 		"c06 n.deliver C 0", "c06 n.deliver A", "c06 n.deliver A x", "c06 n.frob A 1", "c06 n.ask A 1 2", "c06 n.ask A x 1", "c06 n.register A 9", "c06 n.expire B y",
-		"c06 m.deliver 4 0", "c06 m.deliver 0", "c06 m.deliver 0 x", "c06 m.frob 0 1", "c06 m.ask 0 1 1 2", "c06 m.ask 0 0 1 1", "c06 m.ask 0 x 1 1", "c06 m.ask 0 1 1", "c06 m.register 0 9", "c06 m.expire 1 y",
+		"c06 m.deliver 4 0", "c06 m.deliver 0", "c06 m.deliver 0 x", "c06 m.frob 0 1", "c06 m.ask 0 1 1 2", "c06 m.ask 0 0 1 1", "c06 m.ask 0 x 1 1", "c06 m.ask 0 1 1", "c06 m.register 0 9", "c06 m.expire 1 y", "c06 h.race 1 2", "c06 h.race 9 9 5", "c06 h.race 1 1 x", "c06 h.race 1 1 2001",
 		"c06 sibling 9 3", "c06 sibling 1", "c06 sibling 1 99", "c06 sibling x 3", "c06 gtree 1 1 1 2 0", "c06 gtree 1 1 9 2 0 0/3:0", "c06 gtree 1 1 1 0 0 0/3:0", "c06 gtree 1 1 1 2 7 0/3:0", "c06 gtree 1 1 1 x 0 0/3:0"})
 }
